@@ -399,6 +399,37 @@ impl RunRec {
 
 pub const WALL: &str = "robot attempted to move into a wall";
 
+/// the same source through the crate's own public pipeline (`ApLang::new(..).lex()?.parse()?.execute()`), the path
+/// the command-line tool takes: the labels of the report a failing run comes back with (`None`: the run did not
+/// fail, or failed before execution, or panicked). The harness's `run_impl` calls the interpreter directly; this is
+/// the glue between the interpreter's error and the rendered report.
+pub fn public_runtime_labels(src: &str, file_path: &str, fuel: u64, max_depth: u32) -> Option<Vec<(usize, usize)>> {
+    let path = PathBuf::from(file_path);
+    let _g = ImplGuard::enter();
+    let r = catch_unwind(AssertUnwindSafe(|| {
+        let lexed = ApLang::new(src.to_string(), Some(path.clone())).lex().ok()?;
+        let parsed = lexed.parse().ok()?;
+        aplang_lib::verif::sink_install();
+        aplang_lib::verif::set_limits(Some(fuel), max_depth);
+        let res = parsed.execute();
+        let _ = aplang_lib::verif::sink_take();
+        aplang_lib::verif::set_limits(None, u32::MAX);
+        match res {
+            Ok(_) => None,
+            Err(report) => Some(report_labels(&report)),
+        }
+    }));
+    match r {
+        Ok(v) => v,
+        Err(_) => {
+            let _ = aplang_lib::verif::sink_take();
+            aplang_lib::verif::set_limits(None, u32::MAX);
+            let _ = take_panic_msg();
+            None
+        }
+    }
+}
+
 /// run a source through the real lexer, parser and interpreter in this thread
 pub fn run_impl(src: &str, file_path: &str, fuel: u64, max_depth: u32) -> RunRec {
     let path = PathBuf::from(file_path);
@@ -473,6 +504,12 @@ pub fn run_impl(src: &str, file_path: &str, fuel: u64, max_depth: u32) -> RunRec
 
 /// parse the model's RUN reply: `<status> <outhex> fs=<dump>`
 pub fn parse_model_run(reply: &str) -> Option<(RunRec, String)> {
+    parse_model_run_opts(reply, false)
+}
+
+/// `allow_cyclic`: the case is written so that a list containing itself is never displayed, compared or copied
+/// deeply (only its length and its elements are read), so the run is compared although such a list exists at the end
+pub fn parse_model_run_opts(reply: &str, allow_cyclic: bool) -> Option<(RunRec, String)> {
     let mut it = reply.split(' ');
     let status = it.next()?;
     let out = it.next()?;
@@ -490,7 +527,7 @@ pub fn parse_model_run(reply: &str) -> Option<(RunRec, String)> {
         _ => return None,
     };
     // a self-containing list is outside every property's quantifier: treat like an unfinished run
-    let end = if cyclic { End::Fuel } else { end };
+    let end = if cyclic && !allow_cyclic { End::Fuel } else { end };
     Some((RunRec { end, output: crate::util::unhex_str(out), diag_labels: vec![], rt_source: None }, fs))
 }
 
